@@ -43,6 +43,12 @@ pub type J = vcore::Value;
 #[derive(Clone)]
 pub struct DetRng(pub Arc<Mutex<Rng>>);
 
+impl DetRng {
+    pub fn new(rng: Rng) -> Self {
+        DetRng(Arc::new(Mutex::new(rng)))
+    }
+}
+
 impl Csprng for DetRng {
     fn fill_bytes(&self, dst: &mut [u8]) {
         self.0.lock().unwrap().fill(dst);
@@ -56,7 +62,7 @@ use envelope
 use idam
 use perspective
 
-pub struct PublicKeys {
+struct PublicKeys {
     ident_key bytes,
     sign_key bytes,
     enc_key bytes,
